@@ -477,7 +477,7 @@ def _work(task):
             ast.parse(lf)
         except SyntaxError:
             continue
-        if task['kind'] == 'file' and lay.startswith(('continuation', 'tabs', 'unicode')):
+        if task['kind'] == 'file' and lay.startswith(('continuation', 'tabs', 'unicode', 'compat')):
             continue          # content transforms are defined for generated programs only
         r = check_text('%s/%s' % (tid, lay), lf, final, files, task['tier'])
         res['variants'] += 1
